@@ -279,8 +279,10 @@ Definition desc_of (p : lz4f_prefs) : fdesc :=
          (if fp_contentSize p =? 0 then None else Some (fp_contentSize p))
          (negb (fp_contentChecksum p =? 0)) None (fp_blockSizeID p).
 (* what the CLI guarantees about the preferences it hands over (theorem cli_prefs_valid) *)
+Definition U64_MAX1 : Z := 18446744073709551616.
 Definition valid_prefs (p : lz4f_prefs) (content : list Z) : Prop :=
-  4 <= fp_blockSizeID p <= 7 /\ (fp_contentSize p = 0 \/ fp_contentSize p = lenZ content).
+  4 <= fp_blockSizeID p <= 7 /\ (fp_contentSize p = 0 \/ fp_contentSize p = lenZ content) /\
+  0 <= fp_contentSize p < U64_MAX1.
 
 Definition header_ok (hdr : list Z) (D : fdesc) (maxb : Z) : Prop :=
   bsid_size (f_bsid D) = Some maxb /\
@@ -292,7 +294,8 @@ Definition frame_tail (D : fdesc) (content : list Z) : list Z :=
 (* ---- contracts of the library operations (they are properties C07, C03, C01) ---- *)
 (* C07: LZ4F_compressBegin writes a header the specification parses back to the requested descriptor *)
 Definition header_contract (LZ4F_header : lz4f_prefs -> list Z) : Prop :=
-  forall p, 4 <= fp_blockSizeID p <= 7 -> exists maxb, header_ok (LZ4F_header p) (desc_of p) maxb.
+  forall p, 4 <= fp_blockSizeID p <= 7 -> 0 <= fp_contentSize p < U64_MAX1 ->
+            exists maxb, header_ok (LZ4F_header p) (desc_of p) maxb.
 (* C03 at block granularity: the blocks produced by one LZ4F_compressUpdate of a session begun with
    dictionary/prefix [d] that already consumed [prev] are decoded to the input by a decoder whose
    descriptor agrees on block mode / block checksum / block size and whose 64 KB history window is the
@@ -420,8 +423,8 @@ Section PipelineProofs.
   Proof.
     intros Hbs Hv. cbv zeta. apply stream_of_frame. unfold st_output.
     destruct (lenZ content <? blockSize); [apply H_frame; exact Hv|].
-    destruct Hv as [Hid Hcs].
-    destruct (H_header p Hid) as [maxb Hh].
+    destruct Hv as [Hid [Hcs Hu]].
+    destruct (H_header p Hid Hu) as [maxb Hh].
     rewrite H_end.
     apply frame_assemble with (maxb := maxb); [exact Hh| |].
     - rewrite <- (chunks_of_concat blockSize content Hbs) at 2.
@@ -475,8 +478,8 @@ Section PipelineProofs.
   Proof.
     intros Hv. cbv zeta. apply stream_of_frame. unfold mt_output.
     destruct (lenZ content <? CHUNK); [apply H_frame; exact Hv|].
-    destruct Hv as [Hid Hcs].
-    destruct (H_header p Hid) as [maxb Hh].
+    destruct Hv as [Hid [Hcs Hu]].
+    destruct (H_header p Hid Hu) as [maxb Hh].
     assert (HC : 1 <= CHUNK) by (apply Z.leb_le; reflexivity).
     replace (mt_tail p content) with (frame_tail (desc_of p) content)
       by (unfold mt_tail, frame_tail, desc_of; cbn [f_ccrc]; destruct (fp_contentChecksum p =? 0); reflexivity).
@@ -622,15 +625,18 @@ Section PipelineProofs.
   Theorem cli_roundtrip (mt : bool) (args : list arg) (s : cli_state) (fileSize : Z) (dict content : list Z) :
     parse_args cli_init args = Some s ->                 (* any accepted list of modelled switches *)
     (fileSize = 0 \/ fileSize = lenZ content) ->         (* size unknown (pipe) or the real size *)
+    lenZ content < U64_MAX1 ->                           (* file sizes are 64-bit *)
     let F := cli_compress LZ4F_header LZ4F_frame LZ4F_update LZ4F_end LZ4_block mt s fileSize dict content in
     stream_decode bdec skipcrc (S (length F)) dict [] F = Some content.
   Proof.
-    intros Hp Hsz. cbv zeta. unfold cli_compress.
+    intros Hp Hsz H64. cbv zeta. unfold cli_compress.
     pose proof (parse_args_inv args cli_init s cli_init_inv Hp) as [Hid Hbs].
     destruct (c_legacy s); [apply legacy_roundtrip|].
     assert (Hv : valid_prefs (prefs_of s fileSize) content).
-    { split; [exact Hid|]. cbn [prefs_of fp_contentSize].
-      destruct (io_contentSizeFlag (c_prefs s) =? 0); [left; reflexivity|]. destruct Hsz as [E|E]; [left|right]; exact E. }
+    { split; [exact Hid|]. cbn [prefs_of fp_contentSize]. pose proof (lenZ_nonneg content) as H0.
+      unfold U64_MAX1 in *.
+      destruct (io_contentSizeFlag (c_prefs s) =? 0); [split; [left; reflexivity|lia]|].
+      destruct Hsz as [E|E]; (split; [first [left; exact E|right; exact E]|lia]). }
     destruct mt; [apply mt_roundtrip; exact Hv|apply st_roundtrip; [exact Hbs|exact Hv]].
   Qed.
 End PipelineProofs.
